@@ -841,3 +841,59 @@ fn probe_idmap_constprop() {
     core::mem::forget(chroms);
     core::mem::forget(ids);
 }
+
+
+// @harness c14_chrom_result_propagates
+// @props C14
+// @tier off
+// @kind core
+// @timeout 2400
+// @mem 24
+// @flags c-ffi
+// @functions bbiwrite::write_chroms_with_zooms (the task that collects, per chromosome, the staged section bytes and the RESULT of that chromosome's write_data task), with TempFileBuffer::switch / await_real_file (real code, in-memory staging)
+// @bounds one chromosome message (no zoom levels), then the channel is closed; the chromosome's write_data task has finished with Ok or with an I/O error (symbolic); staging buffer empty and closed
+// @stubs channel receive `receiver.next().await` -> `recv_boxed(&mut receiver)` and task join `data_write_future.await.unwrap()` -> `join_now_t(data_write_future)` by source substitution in the scratch copy (native replay: the real channel, runtime and JoinHandle); tempfile::tempfile -> Err (in-memory staging); io::copy asserted unreachable; alloc::fmt::format -> empty
+// @sub src/bbi/bbiwrite.rs ::: let read = receiver.next().await; ::: let read = crate::verif_support::env::recv_boxed(&mut receiver); ::: 2 ||| src/bbi/bbiwrite.rs ::: = data_write_future.await.unwrap()?; ::: = crate::verif_support::env::join_now_t(data_write_future)?; ::: 2 ||| src/bbi/bbiwrite.rs ::: let data_write_data = data_write_future.await; ::: let data_write_data = Ok::<_, tokio::task::JoinError>(crate::verif_support::env::join_now_t(data_write_future)); ::: 2
+// @measured does not finish: the per-chromosome message is destructured out of an `Option<(Receiver, TempFileBuffer, JoinHandle, Vec<TempZoomInfo>)>` (niche-encoded enum = C union for CBMC, DESIGN 6.1 item 4), after which the staging buffer's Arc pointers and the zoom vector's length are opaque; symbolic execution then explores the zoom loop with garbage and the drop glue of JoinError (Box<dyn Any>) until memory runs out (24 GB, 11 min). Kept off; seed C14-4 missed
+// @assumes call-level atomicity of the staging buffer (C12)
+// @cut zoom levels (TempZoomInfo over File), several chromosomes, what the callers do with the returned error
+// @witness cover: the data task failed; it succeeded
+#[kani::proof]
+#[kani::unwind(6)]
+#[kani::stub(alloc::fmt::format, fake_format)]
+#[kani::stub(tempfile::tempfile, crate::verif_support::fake_tempfile_err)]
+#[kani::stub(std::io::copy, crate::verif_support::io_copy_unreachable)]
+fn c14_chrom_result_propagates() {
+    use crate::verif_support::env::*;
+    let fail: bool = kani::any();
+    let mut st = Stats::new(0);
+    let env = Env::new();
+    let file = BufWriter::with_capacity(64, Sink(&mut st as *mut Stats));
+    let (data, writer): (TempFileBuffer<BufWriter<Sink>>, TempFileBufferWriter<BufWriter<Sink>>) = TempFileBuffer::new(true);
+    drop(writer); // the chromosome's write_data task is over
+    let (stx, srx) = crossbeam_channel::unbounded::<Section>();
+    core::mem::forget(stx);
+    let out: Result<(usize, usize), ProcessDataError> = if fail { Err(ProcessDataError::IoError(io::Error::from(io::ErrorKind::Other))) } else { Ok((1, 7)) };
+    let h = ready_task_t(&env, out);
+    let (mut tx, rx) = futures::channel::mpsc::unbounded::<Data<Sink>>();
+    queue_boxed(&mut tx, (srx, data, h, Vec::new()));
+    #[cfg(verif_replay)]
+    drop(tx);
+    #[cfg(not(verif_replay))]
+    core::mem::forget(tx);
+    let r = drive(write_chroms_with_zooms(file, BTreeMap::new(), rx));
+    let (done, is_ok, ubs) = match &r {
+        Some(Ok((_f, m, _s, _z))) => (true, true, *m),
+        Some(Err(_)) => (true, false, 0),
+        None => (false, false, 0),
+    };
+    core::mem::forget(r);
+    assert!(done, "[total] write_chroms_with_zooms suspended although its channel is closed and the task finished");
+    assert!(is_ok == !fail, "[swallowed] a chromosome whose data task failed must make the collector fail (and a healthy one must not)");
+    if is_ok {
+        assert!(ubs == 7, "[ubs] the uncompressed buffer size reported by the data task must be carried to the header");
+    }
+    kani::cover!(fail, "the data task failed");
+    let c2 = !fail;
+    kani::cover!(c2, "the data task succeeded");
+}
